@@ -523,6 +523,8 @@ class Runner:
                     **sandbox.standin_env(self.rec, read="01", qq=True))
         if sc["flags"]:
             env["QMAILINJECT"] = sc["flags"]
+        if sc.get("mfault") is not None:
+            env["VSHIM_FAULT"] = "inj:malloc:%d:12" % sc["mfault"]       # the program's k-th allocation fails once (out of memory)
         benv = {os.fsencode(k): os.fsencode(v) for k, v in env.items()}
         for k, v in sc["env"].items():
             benv[k.encode()] = v
@@ -635,6 +637,14 @@ def run_one(r, scj, stats):
         stats.inconclusive += 1
         return None
     v = judge(sc, rc, err, recs, msg)
+    if sc.get("mfault") is not None:
+        # out of memory at one allocation: the documented outcome is a temporary failure with nothing queued; if the program gets through all
+        # the same, what it queued is judged like any other run - a message that silently lacks a field's recipients is neither
+        committed = [r_ for r_ in recs if r_.get("commit")]
+        stats.case(scenario=scj, nontrivial=True, classes=["allocation_failure", "allocation_failure_exit_%s" % rc])
+        if rc == 111 and not committed:
+            return None
+        return v and ("with allocation #%d failing once (exit status %s): " % (sc["mfault"], rc) + v)
     feats = set(sc.get("feats", []))
     allm = [m for f in sc["fields"] for m in f["mboxes"] if m is not None] + sc["args"]
     nt = len(feats & {"comment", "group", "route", "fold", "quoted"}) >= 2 or "quoted" in feats
@@ -689,6 +699,17 @@ def worker(job):
     def runfn(sc, stats):
         scj = vlib.jsonable(sc)
         v = run_one(r, scj, stats)
+        if not v and len([m for f in sc["fields"] for m in f["mboxes"] if m is not None]) >= 2 and int(vlib.digest(scj)[:4], 16) % 6 == 0:
+            # every third allocation of this run failing once (added after seeded change C17-L); the scenario that is reported carries the fault
+            for k in range(int(vlib.digest(scj)[4:6], 16) % 3, 75, 3):
+                scf = dict(scj, mfault=k)
+                v = run_one(r, scf, stats)
+                if v:
+                    if all(run_one(r, scf, vlib.Stats()) for _ in range(2)):
+                        stats.violations.append((v, scf))
+                        return None
+                    stats.inconclusive += 1
+                    v = None
         if v:
             # DESIGN.md section 1: a violation counts only if it reproduces 3/3 (same scenario, fresh processes)
             again = [run_one(r, scj, vlib.Stats()) for _ in range(2)]
